@@ -410,8 +410,17 @@ def gen_mixed(rng, nops=40, sessions=1, fail_rate=0.15, big_groups=False, resize
                 if d["maxdims"] is None:
                     ops.append({"op": "resize", "path": p, "dims": d["dims"]})
                 elif rng.random() < 0.35:       # a zero extent in one dimension: must be refused and change nothing
-                    nd = list(d["dims"]); nd[rng.randrange(len(nd))] = 0
+                    nd = list(d["dims"]); z = rng.randrange(len(nd)); nd[z] = 0
+                    if rng.random() < 0.6:          # ... while the OTHER dimensions ask for another chunk grid (within the maximum): a refusal
+                        for i in range(len(nd)):    # that has already touched the handle's chunk bookkeeping shows in the next Write (seeded C16-e)
+                            if i != z:
+                                m = d["maxdims"][i]
+                                nd[i] = rng.choice([1, max(1, d["dims"][i] // 2), d["dims"][i] * 2, d["dims"][i] + 7])
+                                if m != UNLIMITED:
+                                    nd[i] = max(1, min(nd[i], m))
                     ops.append({"op": "resize", "path": p, "dims": nd})
+                    if rng.random() < 0.7:
+                        ops.append(write_op(rng, p, d))
                 else:
                     nd = [(m + 1 if m != UNLIMITED else 5) for m in d["maxdims"]]
                     if any(m != UNLIMITED for m in d["maxdims"]):
